@@ -12,7 +12,7 @@ import (
 
 func C05(r *ev.Run) {
 	r.SetRule(ruleRuns + "the run contains a decision followed by further API calls before Reset, or a re-initialisation that replayed cached payloads, or a validator-set change")
-	plan := []Plan{{"valset", 1200, 50000}, {"async-benign", 900, 40000}, {"byz", 500, 20000}, {"missing-tx", 300, 10000}, {"sync-perm", 1000, 30000}, {"long-chain", 20, 100}}
+	plan := []Plan{{"valset", 1200, 25000}, {"async-benign", 900, 20000}, {"byz", 500, 10000}, {"missing-tx", 300, 6000}, {"sync-perm", 1000, 20000}, {"long-chain", 20, 100}}
 	if Only < 0 {
 		// scripted scenario (and seeded variations) of a decision the node did not vote for, followed by
 		// every kind of late event before Reset
